@@ -1276,7 +1276,10 @@ fn add_sig(plan: &mut Plan, seen: &mut BTreeSet<String>, ps: Vec<P>, family: &'s
     if plan.est >= group_cap || per_group.len() >= plan.host.max_sigs() { plan.groups.push(std::mem::take(per_group)); plan.est = 0; }
 }
 
-fn plan_anm(thorough: bool) -> Plan {
+fn plan_anm(extra: bool) -> Plan {
+    // quick explores what used to be the thorough space (~20 s); thorough adds all length-5 signatures over a
+    // 10-letter alphabet
+    let thorough = true;
     let mut plan = Plan::new(Host::Anm12);
     let mut seen = BTreeSet::new();
     let mut g = vec![];
@@ -1286,6 +1289,11 @@ fn plan_anm(thorough: bool) -> Plan {
     for ps in all_seqs(&alpha, if thorough { 4 } else { 3 }) {
         let depth = if thorough { Depth::Cross } else { Depth::Full };
         add_sig(&mut plan, &mut seen, ps, "short", depth, &mut g, cap);
+    }
+    if extra {
+        let reduced: Vec<P> = vec![pint('S'), pint('s'), pint('b'), P::Float { imm: false }, P::Pad4, P::Pad1, P::Off, P::Time,
+            pstr('z', StrSize::Block(4), None, false), pstr('m', StrSize::Block(4), Some(MASK77), false)];
+        for ps in all_seqs(&reduced, 5) { if ps.len() == 5 { add_sig(&mut plan, &mut seen, ps, "short5", Depth::Full, &mut g, cap); } }
     }
     // B: attribute variants alone and next to each context symbol
     let ctx = [pint('S'), pint('s'), pint('b'), P::Float { imm: false }, P::Pad4, P::Pad1, pstr('z', StrSize::Block(4), None, false)];
@@ -1374,11 +1382,12 @@ enum Work { Group(usize, usize), Rejects(usize, usize, usize), Intrinsic(usize) 
 
 pub fn run(tier: &str) -> Report {
     let mut rep = Report::new("C12", tier, "model_checking");
-    let thorough = rep.is_thorough();
+    let extra = rep.is_thorough();
+    let thorough = true;
     let corrupt: u8 = std::env::var("VERIF_C12_SELFTEST_CORRUPT").ok().and_then(|v| v.parse().ok()).unwrap_or(0);
     let only = std::env::var("VERIF_C12_FAMILY").ok();
     let t0 = std::time::Instant::now();
-    let plans = vec![plan_anm(thorough), plan_msg(thorough), plan_tl(thorough)];
+    let plans = vec![plan_anm(extra), plan_msg(thorough), plan_tl(thorough)];
     let mut work = vec![];
     for (pi, p) in plans.iter().enumerate() {
         for gi in 0..p.groups.len() {
@@ -1392,7 +1401,7 @@ pub fn run(tier: &str) -> Report {
     let icases = intrinsic_cases();
     if only.is_none() || only.as_deref() == Some("intrinsic") { for i in 0..icases.len() { work.push(Work::Intrinsic(i)); } }
     let t_plan = t0.elapsed().as_secs_f64();
-    let deadline = rep.deadline() - std::time::Duration::from_secs(if thorough { 150 } else { 50 });
+    let deadline = rep.deadline() - std::time::Duration::from_secs(if extra { 150 } else { 30 });
     let results = par_map(&work, Some(deadline), |wi, w| {
         let mut acc = Acc::default();
         match *w {
@@ -1441,10 +1450,10 @@ pub fn run(tier: &str) -> Report {
     }
     rep.exhaustive = not_run == 0 && only.is_none();
     rep.bound_completed = format!(
-        "ANM th12 user mapfile: all signatures of length <= {} over the 17-letter alphabet {{S s U u C c b f _ - n N E o t z(bs=4) m(bs=4;mask=0x77,7,16)}} (invalid ones must be rejected); \
+        "ANM th12 user mapfile: all signatures of length <= {} over the 17-letter alphabet {{S s U u C c b f _ - n N E o t z(bs=4) m(bs=4;mask=0x77,7,16)}} (invalid ones must be rejected){}; \
          {} attribute variants alone / before / after 7 context letters{}; length-16 all-S signatures with 1 position over the 16 other letters and 2 positions over {}; 17/18/20(+padding) parameters; \
          MSG th08 string signatures; TH06 timeline arg0 signatures; 8 intrinsic kinds bound to every arrangement of their operands with ot/to/o at any boundary and one padding at any position.  Argument lists: default list, every single boundary-value deviation, registers at 1 and 2 positions{}",
-        if thorough { 4 } else { 3 }, attr_variants().len(), if thorough { " (+ triples and pairs of variants)" } else { "" },
+        if thorough { 4 } else { 3 }, if extra { " + all of length 5 over {S s b f _ - o t z m}" } else { "" }, attr_variants().len(), if thorough { " (+ triples and pairs of variants)" } else { "" },
         if thorough { "the 16 other letters" } else { "{_ - s f}" }, if thorough { ", value deviation x register elsewhere (short and attribute families)" } else { "" });
     rep.extra.insert("signatures_valid".into(), json!(n_sigs));
     rep.extra.insert("signatures_rejected_expected".into(), json!(n_rejects));
